@@ -194,8 +194,8 @@ namespace sqf::parser::config
                             ++iter;
                         }
 
-                        // EOF check
-                        if (is_match<'/'>(iter) && is_match<'/'>(iter + 1))
+                        // the closing marker belongs to the comment (missing when the input ends inside it)
+                        if (is_match<'*'>(iter) && is_match<'/'>(iter + 1))
                         {
                             ++iter;
                             ++iter;
